@@ -24,8 +24,8 @@ for spec in sys.argv[3:]:
         sh("git checkout -- . ; git reset -q --hard HEAD")
         results[mid] = r; json.dump(results, open(outp, "w"), indent=1); continue
     sh("git reset -q")  # 3way stages changes
-    rc, out = sh("git diff > /tmp/mv_rebased.diff; git diff --stat")
-    r["rebased_patch"] = open("/tmp/mv_rebased.diff").read()
+    rc, out = sh("git diff > .mv_rebased.diff; git diff --stat")
+    r["rebased_patch"] = open(os.path.join(wt, ".mv_rebased.diff")).read()
     # suite with the patch (no demo present)
     rc, out = sh("cargo nextest run --workspace --no-fail-fast --offline 2>&1 | tail -4")
     r["suite_with_patch"] = out.strip().splitlines()[-1] if out.strip() else ""
